@@ -88,7 +88,10 @@ def run_case(ctx, case, seed, observed, mode=None, tie=False, reuse=None, inst=N
     if inst is not None and case.family not in ("pool", "pool_ma"):
         ctx.count("random_state_instance_" + case.family)
         case = InstCase(case, seed)
-    if inst is not None and case.family in ("pool", "pool_ma"):
+    if inst == "history":
+        findings, info = oracles.repro_pool_history(case, mode, seed)
+        ctx.count("used_object_vs_fresh" + ("_skipped" if str(info.get("raised", "")).startswith("Skip") else ""))
+    elif inst is not None and case.family in ("pool", "pool_ma"):
         findings, info = oracles.repro_pool_instance(case, mode, seed, all_labeled=(inst == "all-labeled"))
         ctx.count("random_state_instance_" + inst + ("_skipped" if str(info.get("raised", "")).startswith("Skip") else ""))
     elif case.family in ("pool", "pool_ma"):
@@ -211,6 +214,8 @@ def correspond(ctx):
                 # random_state as a RandomState instance: plain pool, and every label revealed + explicit candidates
                 # (smallest per-call seed multiplier)
                 run_case(ctx, case, seed, observed, mode=modes[0], inst="plain")
+                for mode in (case.cand_modes if ctx.thorough else modes[:1]):
+                    run_case(ctx, case, seed, observed, mode=mode, inst="history")
                 for mode in [m for m in case.cand_modes if m != "none"][:1 if not ctx.thorough else 2]:
                     run_case(ctx, case, seed, observed, mode=mode, inst="all-labeled")
                 if lead:
@@ -267,6 +272,7 @@ def search(ctx):
                     run_case(ctx, case, seed, observed, mode=mode)
                     run_case(ctx, case, seed, observed, mode=mode, tie=True)
                     run_case(ctx, case, seed, observed, mode=mode, inst="plain")
+                    run_case(ctx, case, seed, observed, mode=mode, inst="history")
                     if mode != "none":
                         run_case(ctx, case, seed, observed, mode=mode, inst="all-labeled")
             else:
